@@ -40,6 +40,7 @@ TAMPERS_OUT = [
 TAMPERS_IN = [
     "input-prev-tx-altered", "input-witness-utxo-amount-with-sig", "input-foreign-script", "input-derivation-wrong-path",
     "input-derivation-foreign-fingerprint", "global-xpub-replaced", "input-witness-utxo-amount-no-sig(not demanded)",
+    "input-legacy-p2sh-amount-via-witness-utxo", "input-foreign-redeem-script-with-witness-utxo",
 ]
 
 GATES = {
